@@ -54,7 +54,8 @@ RULE = ("one evaluation = one simulated file-system world with one logical "
         "two different load paths succeeded and at least one judged probe "
         "instant (paths), or at least one fault fired (faults); distinct = "
         "distinct SHA-1 of the full event history")
-EXPECTED_PROBES = ["load.sibling", "load.gettz_name", "load.gettz_second", "load.gettz_space",
+EXPECTED_PROBES = ["load.sibling", "load.pickle_after_file_changed",
+                   "load.gettz_name", "load.gettz_second", "load.gettz_space",
                    "load.gettz_colon", "load.gettz_abs", "load.tzfile_path",
                    "load.tzfile_stream", "load.archive", "load.archive_link",
                    "load.bundle", "load.pickle", "shape.same_offset",
@@ -280,9 +281,15 @@ def gen_loads(rng, n):
         r = rng.random()
         if r < 0.8 or not loads:
             loads.append([rng.choice(LOADS)])
-        elif r < 0.9:
+        elif r < 0.86:
             loads.append(["pickle", rng.randrange(len(loads)),
                           rng.choice([0, 1, 2, 3, 4, 5])])
+        elif r < 0.9:
+            # pickled, then the file it was loaded from is replaced by another
+            # zone (or removed) before the pickle is read back
+            loads.append(["pickle_moved", rng.randrange(len(loads)),
+                          rng.choice([2, 3, 4, 5]),
+                          rng.choice(["replace", "remove"])])
         else:
             loads.append([rng.choice(["copy", "deepcopy"]),
                           rng.randrange(len(loads))])
@@ -601,6 +608,10 @@ class _Raw(io.RawIOBase):
         return len(d)
 
 
+# load ops whose zone was read from a path of the simulated file system
+PATH_OF = {"gettz_name": "p1", "gettz_colon": "p1", "gettz_abs": "p1",
+           "tzfile_path": "p1", "gettz_second": "p2", "gettz_space": "psp"}
+
 ALLOWED_LOAD_ERRORS = (OSError, ValueError, struct.error, IndexError,
                        EOFError)
 
@@ -650,7 +661,27 @@ def execute(cls, scenario, ctx):
             z = None
             fired_before = sum(ctx.faults.values())
             try:
-                if op[0] in ("pickle", "copy", "deepcopy"):
+                if op[0] == "pickle_moved":
+                    if fault_class or op[1] >= len(loaded) or \
+                            loaded[op[1]][1] is None or \
+                            loaded[op[1]][0][0] not in PATH_OF:
+                        loaded.append((op, None))
+                        continue
+                    src_op, src = loaded[op[1]]
+                    path = getattr(L, PATH_OF[src_op[0]])
+                    blob = pickle.dumps(src, op[2])
+                    saved = world.fs.files[path]
+                    if op[3] == "replace":
+                        world.fs.files[path] = ZW.zone_bytes(
+                            ZW.simple_zone(21))
+                    else:
+                        del world.fs.files[path]
+                    try:
+                        z = pickle.loads(blob)
+                    finally:
+                        world.fs.files[path] = saved
+                    ctx.probe("load.pickle_after_file_changed")
+                elif op[0] in ("pickle", "copy", "deepcopy"):
                     if op[1] >= len(loaded) or loaded[op[1]][1] is None:
                         loaded.append((op, None))
                         continue
